@@ -976,7 +976,10 @@ func (s *Session) input(seg *segment) error {
 				panic(fmt.Sprintf("%v cipher block user name is not set", seg))
 			}
 			if prevUserName != nextUserName {
-				panic(fmt.Sprintf("%v cipher block user name %q is different from %v cipher block user name %q", s, prevUserName, seg, nextUserName))
+				// The segment is authenticated by a different user.
+				// Drop the segment and keep the session of the original user.
+				log.Debugf("%v with cipher block user name %q dropped %v with cipher block user name %q", s, prevUserName, seg, nextUserName)
+				return nil
 			}
 		}
 
